@@ -466,7 +466,7 @@ def rdm(psi, *sites):
         else:
             axes = ((ii, ii + 1), (0, 1)) if psi.nr_phys == 1 else ((ii, ii + 1, ii + 3), (0, 1, 3))
             FL = tensordot(FL, An, axes=axes)
-    rho = tensordot(FL, FR, axes=((ii, ii + 1), (1, 0)))
+    rho = env.factor() * tensordot(FL, FR, axes=((ii, ii + 1), (1, 0)))
 
     for ii, st in enumerate(sites):
         nd = sum(st > i for i in sites[ii+1:])
